@@ -1,5 +1,6 @@
 // hx_raft — drives the real agdb_server/src/raft.rs (build-time copy, virtual clock) from event lists.
-//   hx_raft gen     --seed S --n N --len L --out DIR      random adversarial event lists (3 nodes, every 6th case 5 nodes)
+//   hx_raft gen     --seed S --n N --len L --out DIR      random adversarial event lists (3 nodes, every 6th case 5 nodes),
+//                                                         then max(3, N/40) instances of each scripted gadget (gadget.rs) with random variations
 //   hx_raft replay  --file F --out DIR                    explicit event lists, one per line: "[G:d1,d2 ]<nodes> (T ..) (D ..) ..."
 //   hx_raft live    --seed S --n N --out DIR              fault-free timed simulations (C30): real timeouts, every message delivered
 //   hx_raft explore --depth D --budget B --out DIR        bounded exhaustive exploration of 3-node clusters (search only)
@@ -12,6 +13,7 @@
 mod raft {
     include!(concat!(env!("OUT_DIR"), "/raft_src.rs"));
 }
+mod gadget;
 mod rng;
 mod server_error;
 mod sim;
@@ -303,10 +305,11 @@ fn enabled(w: &World, appends_left: bool, dups_left: bool) -> Vec<Ev> {
     v
 }
 
-fn explore(out: &mut Out, depth: usize, budget: usize) {
+fn explore(out: &mut Out, root: &[Ev], depth: usize, budget: usize) {
     // iterative DFS by replay; a state is identified by its printed line (network as a sorted multiset) + oracle summary
     let mut seen: HashSet<String> = HashSet::new();
-    let mut stack: Vec<Vec<Ev>> = vec![vec![]];
+    let depth = root.len() + depth;
+    let mut stack: Vec<Vec<Ev>> = vec![root.to_vec()];
     let mut visited = 0usize;
     let mut failing: Vec<Vec<Ev>> = vec![];
     let mut fail_keys: HashSet<String> = HashSet::new();
@@ -379,6 +382,15 @@ fn main() {
                 let evs = gen_case(&mut r, size, l.max(4), mode);
                 out.run_case(size, &evs, "random", None);
             }
+            // scripted situations the random lists do not reach (gadget.rs), with random variations
+            for _ in 0..(n / 40).max(3) {
+                let mut r = rng.fork();
+                let (size, evs, done) = gadget::delayed_vote(&mut r, false, &mut |r, w, d| gen_event(r, w, 1, d));
+                out.run_case(size, &evs, if done { "gadget-delayed-vote" } else { "gadget-delayed-vote-incomplete" }, None);
+                let mut r = rng.fork();
+                let (size, evs, goal) = gadget::partition_heal(&mut r, false);
+                out.run_case(size, &evs, if goal.is_some() { "gadget-partition-heal" } else { "gadget-partition-heal-incomplete" }, goal.as_deref());
+            }
         }
         "replay" => {
             let file = arg(&args, "--file", "");
@@ -420,7 +432,16 @@ fn main() {
         "explore" => {
             let depth: usize = arg(&args, "--depth", "10").parse().unwrap();
             let budget: usize = arg(&args, "--budget", "200000").parse().unwrap();
-            explore(&mut out, depth, budget);
+            // from the initial state, and (an eighth of the budget each, shallower) from the states the two gadgets reach
+            explore(&mut out, &[], depth, budget);
+            for v in 0..4u64 {
+                let mut r = Rng::new(seed + v);
+                let (_, a, ok) = gadget::delayed_vote(&mut r, true, &mut |r, w, d| gen_event(r, w, 1, d));
+                if ok { explore(&mut out, &a, depth.min(7), budget / 32); }
+                let mut r = Rng::new(seed + v);
+                let (_, b, goal) = gadget::partition_heal(&mut r, true);
+                if goal.is_some() { explore(&mut out, &b, depth.min(7), budget / 32); }
+            }
         }
         _ => {
             eprintln!("unknown command {}", cmd);
